@@ -200,19 +200,44 @@ func c06rules(c *Ctx, w *World, pfx string) {
 				// the inner map must be either the result of looking up <split>.F[name] or a fresh map stored there
 				inner := mu.Map
 				var outerMap, nameKey ssa.Value
-				switch x := inner.(type) {
-				case *ssa.Extract:
-					if lk, ok := x.Tuple.(*ssa.Lookup); ok {
-						outerMap, nameKey = lk.X, lk.Index
+				resolveInner := func(v ssa.Value) (ssa.Value, ssa.Value) {
+					switch x := v.(type) {
+					case *ssa.Extract:
+						if lk, ok := x.Tuple.(*ssa.Lookup); ok {
+							return lk.X, lk.Index
+						}
+					case *ssa.MakeMap:
+						for _, rf := range referrers(x) {
+							if mu2, ok := rf.(*ssa.MapUpdate); ok && mu2.Value == x {
+								return mu2.Map, mu2.Key
+							}
+						}
+					case *ssa.Lookup:
+						return x.X, x.Index
 					}
-				case *ssa.MakeMap:
-					for _, rf := range referrers(x) {
-						if mu2, ok := rf.(*ssa.MapUpdate); ok && mu2.Value == x {
-							outerMap, nameKey = mu2.Map, mu2.Key
+					return nil, nil
+				}
+				if ph, isPhi := inner.(*ssa.Phi); isPhi {
+					// create-on-miss: the existing per-name map or a fresh one stored under the same name
+					env := &renderEnv{root: cl}
+					agree := true
+					for i, e := range ph.Edges {
+						om, nk := resolveInner(e)
+						if om == nil {
+							agree = false
+							break
+						}
+						if i == 0 {
+							outerMap, nameKey = om, nk
+						} else if symRender(om, env, 0) != symRender(outerMap, env, 0) || symRender(nk, env, 0) != symRender(nameKey, env, 0) {
+							agree = false
 						}
 					}
-				case *ssa.Lookup:
-					outerMap, nameKey = x.X, x.Index
+					if !agree {
+						outerMap = nil
+					}
+				} else {
+					outerMap, nameKey = resolveInner(inner)
 				}
 				if outerMap == nil {
 					r.Fail(key+":dest", mu.Pos(), "cannot identify the per-name map the element is stored in: "+pathOf(inner))
@@ -240,25 +265,11 @@ func c06rules(c *Ctx, w *World, pfx string) {
 
 	c.Rule(pfx+".R2", "Split: each of the four closures stores the element exactly once, keys unchanged, into field X of maps[Bucket(name, tagsKey, count)]", 20, func(r *Rule) {
 		splitRule(r, "Split", func(cl *ssa.Function, mmSplit ssa.Value) (bool, string) {
-			// mmSplit = *(&maps[Bucket(p0, p1, count)])
-			u, ok := mmSplit.(*ssa.UnOp)
-			if !ok {
-				return false, "split map is " + pathOf(mmSplit)
-			}
-			ia, ok := u.X.(*ssa.IndexAddr)
-			if !ok {
-				return false, "split map is not an element of the maps slice: " + pathOf(mmSplit)
-			}
-			call, ok := ia.Index.(*ssa.Call)
-			if !ok || !isCall(call, "gostatsd.Bucket") {
-				return false, "index is not a Bucket(...) call: " + pathOf(ia.Index)
-			}
-			a := call.Call.Args
-			if len(a) != 3 || paramIndex(cl, a[0]) != 0 || paramIndex(cl, a[1]) != 1 {
-				return false, "Bucket is not applied to (metricName, tagsKey)"
-			}
-			if valueName(ia.X) != "maps" || valueName(a[2]) != "count" {
-				return false, fmt.Sprintf("Bucket(..., %s) indexes %s: shard count and slice must be Split's count and maps", pathOf(a[2]), pathOf(ia.X))
+			// mmSplit must denote maps[Bucket(metricName, tagsKey, count)] (written in place or through a local helper)
+			got := symRender(mmSplit, &renderEnv{root: cl}, 0)
+			want := "maps[" + Mod + ".Bucket(p0,p1,count)]"
+			if got != want {
+				return false, "split map is " + got + "; shard count and slice must be Split's count and maps, selected by Bucket(metricName, tagsKey, count)"
 			}
 			return true, "maps[Bucket(metricName, tagsKey, count)]"
 		})
